@@ -562,9 +562,48 @@ def run(ctx):
     kws = [dict(seed=ctx.seed * 1000 + i, n_thr=n_thr, n_wq=n_wq,
                 tier=ctx.tier) for i in range(nsh)]
     out = run_shards("vf.checks.c17", "shard", kws)
-    out.stats.extra["real_run_part"] = (
-        "not executed by this module: check_training_sizes(records) is the "
-        "hook for the run driver")
+    out.merge(real_runs(ctx))
+    return out
+
+
+def real_runs(ctx, cases=None):
+    """Real-run part: every proposal of generated importance-sampler runs is
+    trained on at least min_samples samples (sizes recorded by the passive
+    run monitor around ImportanceFlowProposal.train)."""
+    from .. import configs, runs
+    from ..core import HarnessError
+
+    out = Outcome()
+    if cases is None:
+        n = 10 if ctx.quick else 120
+        cases = configs.collect(configs.ins_job(), ctx.seed + 17, n)
+    hist = [configs.history_from(c, ["ins"]) for c in cases]
+    res = runs.run_histories("c17", hist)
+    n_train = 0
+    for case, reps in zip(cases, res):
+        for r in reps:
+            if r.get("status") == "exception" and r.get("exc_in_harness"):
+                raise HarnessError(r.get("traceback", ""))
+            data = r.get("data") or {}
+            sizes = data.get("training_sizes") or []
+            ms = data.get("min_samples")
+            if ms is None:
+                continue
+            recs = [dict(n_train=s_, min_samples=ms, iteration=i,
+                         run=case["kwargs"]) for i, s_ in enumerate(sizes)]
+            n_train += len(recs)
+            for v in check_training_sizes(recs):
+                v.case = dict(kind="training-size-run", run_case=case,
+                              record=v.case["record"])
+                out.add(v)
+        ok = reps[-1].get("status") == "completed"
+        out.stats.case(
+            {"run": case["kwargs"], "model": case["model"]},
+            nontrivial=ok, classes=["real-run"] + (
+                ["real-run:completed"] if ok else []),
+            n=max(1, sum(len((r.get("data") or {}).get(
+                "training_sizes") or []) for r in reps)))
+    out.stats.extra["real_run_trainings_checked"] = n_train
     return out
 
 
@@ -595,6 +634,8 @@ def replay(ctx, case):
     logging.getLogger("nessai").setLevel(logging.CRITICAL)
     if not isinstance(case, dict):
         raise HarnessError("replay case must be a JSON object")
+    if case.get("kind") == "training-size-run":
+        return real_runs(ctx, cases=[case["run_case"]])
     try:
         check_case(case)
     except Violation as v:
